@@ -171,7 +171,13 @@ class Names:
 
 
 def sanitize(s):
-    return re.sub(r"[^A-Za-z0-9_]", "_", s)
+    """Coq/OCaml identifier part: no leading or doubled underscore (reserved by extraction)"""
+    s = re.sub(r"[^A-Za-z0-9_]", "_", s)
+    if s.startswith("__"):
+        s = "uu_" + s[2:]
+    elif s.startswith("_"):
+        s = "u_" + s[1:]
+    return s.replace("__", "_u_")
 
 
 class FnTranslator:
